@@ -355,11 +355,26 @@ class FnDeps:
         else:
             res = None
         allargs = res if res is not None else frozenset().union(*[self.read_op(st, a) for a in args]) if args else frozenset()
-        # writes through mutable references handed to the callee (also those captured by a closure argument)
+        # writes through mutable references handed to the callee (also those captured by a closure argument): with a
+        # summary, exactly what the callee may write through that parameter; otherwise anything derived from the arguments
+        def _subst0(srcs):
+            out = set()
+            for s_ in srcs:
+                if s_[0] == "p":
+                    i = s_[1] - 1
+                    if 0 <= i < len(args) and args[i].get("o") != "c" and "l" in args[i]:
+                        out |= self.read(st, args[i]["l"], _path_of(args[i]) + tuple(s_[2]))
+                else:
+                    out.add(s_)
+            return frozenset(out)
         for (ml, mp) in list(st.mut):
-            if any(_bare(a) and a["l"] == ml for a in args):
+            idxs = [i for i, a in enumerate(args) if _bare(a) and a["l"] == ml]
+            if idxs:
+                w = allargs
+                if summ is not None and not mp and ("@", idxs[0] + 1) in summ:
+                    w = _subst0(summ[("@", idxs[0] + 1)])
                 for (tl, tp) in self.targets(st, ml, mp):
-                    self._weak(st, tl, tp, allargs | ctrl)
+                    self._weak(st, tl, tp, w | ctrl)
         if dest is None:
             return
         if summ is None:
@@ -394,7 +409,7 @@ class FnDeps:
         if not _has_deref(dest):
             base = _path_of(dest)
             for op_, srcs in summ.items():
-                if op_ != ():
+                if op_ != () and op_[:1] != ("@",):
                     st.d[(dest["l"], base + op_)] = subst(srcs) | ctrl
             self._returned_mut(st, args, dest)
 
@@ -616,7 +631,10 @@ class FnDeps:
         for (_bi, _kind, deps, _ln, _c) in self.alternatives(out_paths):
             for op, d in deps.items():
                 res[op] |= d
-        return {op: frozenset(v) for op, v in res.items()}
+        out = {op: frozenset(v) for op, v in res.items()}
+        for l, d in self.out_params().items():
+            out[("@", l)] = d          # what may be written through the `&mut` parameter l
+        return out
 
 
 class Engine:
